@@ -113,5 +113,84 @@ def run_dec(ctx, binp, casep, tracep, timeout=900):
     return out_lines
 
 
+MC_QUICK = ["Header", "WorkItem", "WorkReport", "Storage", "FuzzMessage", "AvailAssurance", "WorkExecResult", "RefineLoad", "ServiceInfo",
+            "StateKeyVals", "TicketsOrKeys", "Mmr", "Privileges", "Judgement", "LookupMetaMapEntry", "OperandOrDeferredTransfer", "BoundaryNode",
+            "AccumulatedServiceOutput", "MetaCode", "FuzzPeerInfo", "Ancestry", "TicketAttempt"]
+# types whose encodings are too large to enumerate mutants / pairs exhaustively in the model check (they are compositions of the others)
+MC_HUGE = ["State", "ReadyQueue", "AuthQueues", "AuthQueue", "SafroleState", "ValidatorsData", "ExportSegment", "ExportSegmentMatrix",
+           "WorkPackageBundle", "FuzzSetState", "Statistics", "AvailabilityAssignments"]
+
+
 def mc_codec(ctx, k):
-    pass
+    """Design check: round trip + layout agreement for every schema type, prefix-freeness and strictness on mutants."""
+    names = schema_types(ctx, k)
+    if ctx.quick:
+        mut, pair, kk = MC_QUICK, MC_QUICK, 3
+    else:
+        mut = [n for n in names if n not in MC_HUGE]
+        pair, kk = mut, 4
+    c = dict(k)
+    c.update({"Names": vf.tla_set(mut), "PairNames": vf.tla_set(pair), "K": str(kk)})
+    cfg = vf.cfg_text(constants=c, spec="Spec", invariants=["InvRoundTrip", "InvPrefixFree", "InvStrict", "InvRejected", "InvPadBits", "InvValid"])
+    return vf.mc(ctx, "MC_Codec", cfg, workers=4 if ctx.quick else 8, timeout=1500, heap="4g" if ctx.quick else "8g", coverage=False)
+
+
+def gen_cases(ctx, binp, k, names, classes, tag, kk=None, big_limit=None, groups=None, sample_n=None):
+    """G-step: TLC derives the mutants (CodecMut) of the generator values and of seeded driver values of `names`."""
+    import concurrent.futures as cf
+    kk = kk or (3 if ctx.quick else 6)
+    big_limit = big_limit or (700 if ctx.quick else 2500)
+    sample_n = sample_n if sample_n is not None else (3 if ctx.quick else 10)
+    groups = groups or (4 if ctx.quick else 10)
+    valp = ""
+    if sample_n > 0:
+        valp = os.path.join(ctx.tmp, "values-%s.ndjson" % tag)
+        vf.run_driver(ctx, binp, "TestRun", env={"VF_MODE": "rt", "VF_OUT": valp, "VF_SEED": ctx.seed, "VF_TYPES": ",".join(names),
+                                                 "VF_N": sample_n, "VF_BYTES_PER_TYPE": 4 * big_limit}, timeout=600)
+        # keep only what the generator needs (type, value, first encoding) and drop the huge ones
+        keep = []
+        for ln in vf.read_lines(valp):
+            r = json.loads(ln)
+            if r["encs"] and len(r["encs"][0]) <= big_limit:
+                keep.append(json.dumps({"ty": r["ty"], "v": r["v"], "encs": r["encs"][:1]}))
+        with open(valp, "w") as f:
+            f.write("\n".join(keep) + "\n")
+    parts = [names[i::groups] for i in range(groups)]
+    parts = [p for p in parts if p]
+
+    def one(ix):
+        c = dict(k)
+        c.update({"ValuesFile": '"%s"' % valp, "Names": vf.tla_set(parts[ix]), "Classes": vf.tla_set(classes), "K": str(kk),
+                  "BigLimit": str(big_limit)})
+        return vf.gen_cases(ctx, "Codec_Gen", c, timeout=1500, heap="4g", tag="-%s-%d" % (tag, ix))
+    with cf.ThreadPoolExecutor(max_workers=4 if ctx.quick else 6) as ex:
+        outs = list(ex.map(one, range(len(parts))))
+    casep = os.path.join(ctx.tmp, "cases-%s.ndjson" % tag)
+    seen = set()
+    with open(casep, "w") as f:
+        for o in outs:
+            for ln in vf.read_lines(o):
+                if ln not in seen:
+                    seen.add(ln)
+                    f.write(ln + "\n")
+    vf.log("  G Codec_Gen: %d cases for %d types" % (len(seen), len(names)))
+    if not seen:
+        raise vf.Infra("generator produced no cases")
+    return casep
+
+
+def account(ctx, lines, rule, nontrivial):
+    ctx.cov["evaluations"] = len(lines)
+    per_cls, per_ty, nt = {}, {}, set()
+    for ln in lines:
+        r = json.loads(ln)
+        per_cls[r.get("cls", "")] = per_cls.get(r.get("cls", ""), 0) + 1
+        per_ty[r["ty"]] = per_ty.get(r["ty"], 0) + 1
+        if nontrivial(r):
+            nt.add(json.dumps([r["ty"], r["in"]]))
+    ctx.cov["distinct_nontrivial"] = len(nt)
+    ctx.cov["rule"] = rule
+    ctx.cov["actions"].update({"class_" + c: n for c, n in sorted(per_cls.items())})
+    ctx.cov["actions"]["types_exercised"] = len(per_ty)
+    small = [ln for ln in lines if len(ln) < 1500]
+    ctx.cov["samples"] = [json.loads(x) for x in small[:2] + small[-2:]]
